@@ -30,7 +30,8 @@ CHECKS = {
              'implements Pager\'s three conditions (all 16 valuations of the four look-ahead intersections enumerated) after '
              'checking equal cores, and a pair that passes hands over to the next pair of the row; all edge-recording sites of a '
              'reprocessed state overwrite; garbage collection precedes graph construction and filters the state vector and '
-             'the edge vector by the same membership test.',
+             'the edge vector by the same membership test; a goto set is merged only into a state that passed the weak-compatibility test, '
+             'and the closed form of the state being processed is stored before its successors are merged.',
         note='Necessary conditions only: equivalence with canonical LR(1) on every input and "never more states than canonical" '
              'need an independent construction and are NOT decided. Trusted: ' + TB,
         technique='path-table extraction (exhaustive over the 4 intersection atoms), dominance and reachability over MIR',
@@ -91,7 +92,7 @@ CHECKS = {
              'lexer, the very span pushed on the span stack, the drained child values, a clone of the parameter); the '
              'hand-duplicated reduce code of driver and replay is compared with each other after replacing stacks by role '
              'symbols; generic-tree mapping order; on a shift the span pushed is that of the lexeme pushed; the span handed to '
-             'an action is either (start of the first popped entry, end of the last entry) or zero-length.',
+             'an action runs from the first popped entry that derived something to the end of the last entry, or is zero-length.',
         note='The span SHAPE is decided (R8.7: an empty production gets a zero-length span - found and fixed a defect, /repo '
              '26c2db3); that each span-stack entry holds what its symbol derived is NOT decided. Trusted: ' + TB,
         technique='sibling agreement on canonicalised symbolic terms + exactly-once path counting in MIR',
@@ -101,7 +102,8 @@ CHECKS = {
         text='Rule selection: (longest, rule) replaced only under a STRICT comparison while rules are visited in ascending order '
              'and matched at the position\'s start offset; applicability table of a rule in a start state; tiling (offset '
              'advances by exactly the longest match and only if > 0, emitted lexeme = (token of the chosen rule, start, '
-             'longest), every error ends lexing); start-state stack operations per operation variant, on every path.',
+             'longest), every error ends lexing); start-state stack operations per operation variant, on every path; the regex '
+             'handed to the engine is the user text grouped behind an anchor (\\A(?:..)).',
         note='What the regexes match and the id synchronisation sets are NOT decided. Trusted: regex crate; ' + TB,
         technique='symbolic cycle tables of the lexing loops extracted from MIR (strictness/orientation of comparisons, provenance of emitted values)',
         ref='§4 C09'),
@@ -124,7 +126,8 @@ CHECKS = {
              'key -> field, defaults merge, field -> RegexBuilder setter of the same name, CTLexerBuilder setter -> header key. '
              '(3) No number that is a setting is narrowed with an `as` cast on its way into a flag (all integer casts enumerated). '
              '(4) The lex parser strips and tests blanks with its one white-space predicate only (no Unicode White_Space trim/is_whitespace). '
-             '(5) A span built from the length of a piece line[A..] of a rule line starts at that piece (offset of the line + A), on every path.',
+             '(5) A span built from the length of a piece line[A..] of a rule line starts at that piece (offset of the line + A), on every path. '
+             '(6) Regex text is unescaped alike with and without a start-state prefix.',
         note='Decides the span-offset clause and the "flags given are the ones in force" clause structurally. Does NOT decide '
              'that rule splitting and escape rewriting denote the right regular language. Trusted: ' + TB,
         technique='def-use provenance of parser inputs + name-agreement check over resolved field indices, callee names and constant strings in MIR',
